@@ -101,13 +101,16 @@ C20StepReasons(e) ==
              \cup {<<"id-reused", i>> : i \in {j \in 0..(Len(b.nodes) - 1) : j < Len(a.nodes) /\ N(b, j).kind = "Empty" /\ N(a, j).kind # "Empty"}}
              \cup {<<"root-moved", k.key>> : k \in {x \in others : \A y \in Range(a.keys) : y.key = x.key => y.root # x.root}}
 
+\* a history on which the server panicked has no answers to judge, but the graph it left
+\* behind is still inspected; the panic itself contradicts C04 (a fresh server answers)
 Judge(e) ==
-    LET docs == DocsOf(e) IN
-    [C04 |-> C04Reasons(e), C05 |-> C05ReasonsWith(e, docs, IdealTarget), C06 |-> C06ReasonsWith(e, docs, IdealTarget),
-     C18 |-> C18Reasons(e, docs),
-     C20 |-> C20ArenaReasons(e.arena) \cup C20StepReasons(e)
-             \cup UNION {{<<"patch-graph", r>> : r \in C20ArenaReasons(e.patches[i])} : i \in 1..Len(e.patches)},
-     C03 |-> {}]
+    LET docs == DocsOf(e)
+        c20 == C20ArenaReasons(e.arena) \cup C20StepReasons(e)
+               \cup UNION {{<<"patch-graph", r>> : r \in C20ArenaReasons(e.patches[i])} : i \in 1..Len(e.patches)}
+    IN  IF e.answered
+        THEN [C04 |-> C04Reasons(e), C05 |-> C05ReasonsWith(e, docs, IdealTarget), C06 |-> C06ReasonsWith(e, docs, IdealTarget),
+              C18 |-> C18Reasons(e, docs), C20 |-> c20, C03 |-> {}]
+        ELSE [C04 |-> {<<"crash", e.res>>}, C05 |-> {}, C06 |-> {}, C18 |-> {}, C20 |-> c20, C03 |-> {<<"crash", e.res>>}]
 
 Crash(e) == [C04 |-> {}, C05 |-> {}, C06 |-> {}, C18 |-> {}, C20 |-> {}, C03 |-> {<<"crash", e.res>>}]
 
